@@ -32,7 +32,25 @@ func verifWriteFaults(format string, signed bool) {
 	v.Reach("C06.faults.ran")
 	if w.Failed {
 		v.Reach("C06.faults.injected")
-		v.Assert(err != nil, format+"-failed-write-is-reported")
+		// The write sequence of the real compressors differs from the model's
+		// (number and size of writes), so the index the solver chose need not
+		// be the one that matters natively: the native replay sweeps every
+		// write index of the real stream, complete and partial failure.
+		sweepOK := true
+		if !v.Symbolic() {
+			clean := &FaultWriter{}
+			if Packager(format).Package(sc.Info, clean) == nil {
+				for k := 1; k <= clean.Writes; k++ {
+					for _, partial := range []bool{false, true} {
+						fw := &FaultWriter{ForceIdx: k, ForcePartial: partial}
+						if e := Packager(format).Package(sc.Info, fw); fw.Failed && e == nil {
+							sweepOK = false
+						}
+					}
+				}
+			}
+		}
+		v.Assert(err != nil && sweepOK, format+"-failed-write-is-reported")
 	} else {
 		v.Assert(err == nil, format+"-packages-without-fault")
 	}
